@@ -40,7 +40,7 @@ func runC05(e *Env) {
 	ruleC05Ver(e)
 	ruleErrZero(e, "C05.errzero", "uu")
 	ruleWrap(e, "C05.wrap", "uu")
-	ruleLimit(e, "C05.limit", "uu")
+	ruleLimitAccept(e, "C05.limit", "uu")
 	ruleTyped(e, "C05.typed", "uu")
 	ruleDeleg(e, "C05.deleg", "uu")
 	e.S.Floor("C05.deleg", 12)
@@ -50,7 +50,7 @@ func runC05(e *Env) {
 	e.S.Floor("C05.digit", 6)
 	e.S.Floor("C05.strict", 8)
 	e.S.Floor("C05.ver", 9)
-	e.S.Floor("C05.limit", 4)
+	e.S.Floor("C05.limit", 2)
 }
 
 // ---- C05.layout
